@@ -1059,4 +1059,68 @@ theorem scaled_model_start (scale : List ℝ) :
       exact congrArg _ ih
   · intro scaled; simp [scaleParams]
 
+/-! ## Recovery for the hydrodynamically correct spectrum (fast sensor / fully fixed filter) -/
+
+/-- the hydrodynamically correct spectrum is `D·A(f)/((f_c + B(f))² + C(f))` with `A = Re γ/π²`,
+    `B = f·(Im γ − f/f_m)`, `C = (f·Re γ)²` — functions of frequency that do not depend on the fitted
+    parameters (`γ` = `calculate_complex_drag`, `f_m` = `calculate_dissipation_frequency`) -/
+theorem hydro_spectrum_form (f fc D gamma0 r rhoS rhoB : ℝ) (dist : Option ℝ) :
+    hydroPsd f fc D gamma0 r rhoS rhoB dist
+      = ratPsd (fun f => (complexDrag f gamma0 rhoS r dist).1 / Real.pi ^ 2)
+          (fun f => f * ((complexDrag f gamma0 rhoS r dist).2 - f / dissipationFrequency gamma0 r rhoB))
+          (fun f => (f * (complexDrag f gamma0 rhoS r dist).1) ^ 2) f fc D :=
+  hydroPsd_form f fc D gamma0 r rhoS rhoB dist
+
+/-- … and it is what the `c11.chi2` op sums over for a hydrodynamic model without filter; without
+    a surface `Re γ = 1 + √(f/f_ν) ≥ 1`, so `A ≠ 0` -/
+theorem psdOr_hydro_noFilter (m : Mdl ℝ) (hh : m.o.hydro = true) (fc D nan : ℝ) :
+    (m.psdOr .noFilter fc D [] nan = fun f =>
+      hydroPsd f fc D m.gamma0Psd (m.o.d * 1e-6 / 2) (m.o.rhoSample.getD 997) m.o.rhoBead
+        (m.o.dist.map (· * 1e-6)) * 1) ∧
+    ∀ f g rho r : ℝ, 1 ≤ (complexDrag f g rho r none).1 := by
+  constructor
+  · funext f
+    simp only [Mdl.psdOr, Mdl.psd, Filt.eval, Mdl.physicalPsd, hh, if_true, one_lit]
+    norm_num
+  · intro f g rho r
+    rw [complexDrag_bulk_re]
+    have := Real.sqrt_nonneg (f / (g / (6 * Real.pi * rho * r) / (Real.pi * (r * r))))
+    linarith
+example : (build oHydro).o.hydro = true := rfl
+
+/-- RECOVERY for every spectrum of that form: on a noise-free spectrum the objective vanishes at
+    the generating `(f_c, D)`, and at no other `(f_c', D')` as soon as the spectrum holds three
+    frequencies whose rows `(B² + C, B, 1)` are linearly independent (a condition on the known
+    functions only; the harness evaluates it on every hydrodynamic fast-sensor fit it explores) -/
+theorem rational_spectrum_recovery_unique (A B C : ℝ → ℝ) (fs : List ℝ) (n fc D fc' D' f1 f2 f3 : ℝ)
+    (hn : 0 < n) (hD : D ≠ 0) (hA : ∀ f ∈ fs, A f ≠ 0) (hC : ∀ f ∈ fs, 0 < C f)
+    (m1 : f1 ∈ fs) (m2 : f2 ∈ fs) (m3 : f3 ∈ fs)
+    (hdet : (B f1 ^ 2 + C f1) * (B f2 - B f3) - B f1 * ((B f2 ^ 2 + C f2) - (B f3 ^ 2 + C f3))
+      + ((B f2 ^ 2 + C f2) * B f3 - (B f3 ^ 2 + C f3) * B f2) ≠ 0) :
+    chi2 (fun f => ratPsd A B C f fc D) n fs (fs.map fun f => ratPsd A B C f fc D) = 0 ∧
+    (chi2 (fun f => ratPsd A B C f fc' D') n fs (fs.map fun f => ratPsd A B C f fc D) = 0 →
+      fc' = fc ∧ D' = D) := by
+  have hne : ∀ f ∈ fs, ratPsd A B C f fc D ≠ 0 := by
+    intro f hf
+    unfold ratPsd
+    have := hC f hf
+    exact div_ne_zero (mul_ne_zero hD (hA f hf)) (by positivity)
+  refine ⟨(fit_objective_minimised_by_generating _ (fun f => ratPsd A B C f fc D) n hn fs hne).1, ?_⟩
+  intro hchi
+  have hpt := (chi2_zero_iff' _ n hn fs _ (by
+    intro x hx
+    rw [(zip_map_snd _ fs x hx).2]
+    exact hne _ (zip_map_snd _ fs x hx).1)).mp hchi
+  have key : ∀ f ∈ fs, ratPsd A B C f fc' D' = ratPsd A B C f fc D := by
+    intro f hf
+    have := hpt _ (mem_zip_map (fun f => ratPsd A B C f fc D) fs f hf)
+    simpa using this
+  exact ratPsd_identifiable' A B C fc D fc' D' f1 f2 f3 hD ⟨hA _ m1, hA _ m2, hA _ m3⟩
+    ⟨hC _ m1, hC _ m2, hC _ m3⟩ hdet (key f1 m1) (key f2 m2) (key f3 m3)
+example : ((fun f : ℝ => f) 0 ^ 2 + 1) * ((fun f : ℝ => f) 1 - (fun f : ℝ => f) 2)
+    - (fun f : ℝ => f) 0 * (((fun f : ℝ => f) 1 ^ 2 + 1) - ((fun f : ℝ => f) 2 ^ 2 + 1))
+    + (((fun f : ℝ => f) 1 ^ 2 + 1) * (fun f : ℝ => f) 2 - ((fun f : ℝ => f) 2 ^ 2 + 1) * (fun f : ℝ => f) 1) ≠ 0
+    ∧ (0:ℝ) ∈ [(0:ℝ), 1, 2] := by
+  refine ⟨by norm_num, by simp⟩
+
 end Verif.C11
